@@ -556,6 +556,13 @@ def execute(plan, run):
         t = step['t']
         mdl, why = model(step['lock'], items, root_pk, t, sf, int(step['allowed'], 16),
                          reads, step['thr'])
+        if step.get('default_t'):
+            # any read of this call may be the one the default timestamp was taken from
+            for c in sorted({int(r) for r in reads}):
+                m2, _ = model(step['lock'], items, root_pk, c, sf, int(step['allowed'], 16),
+                              reads, step['thr'])
+                if m2 != mdl:
+                    mdl, why = EITHER, 'default_timestamp_reads_disagree'
         if (step.get('suffix') or clock_failed) and mdl == ACCEPT:
             mdl = EITHER        # soundness only (see oracle.SUFFIXES)
 
@@ -570,7 +577,8 @@ def execute(plan, run):
                           'attack': atk, 'why': why, 'lock': step['lock'],
                           'witness': step['witness'], 'signer': step['signer']})
         # who-level oracle for honest attempts: completeness of the builders
-        honest = (not atk and not step.get('suffix') and not clock_failed and
+        t_ambiguous = bool(step.get('default_t')) and len({int(r) for r in reads}) > 1
+        honest = (not atk and not step.get('suffix') and not clock_failed and not t_ambiguous and
                   not step.get('tx_change') and
                   step['witness'] == step['lock'] and
                   step['signer'] == step['chain'][-1]['subject'] and
@@ -588,7 +596,8 @@ def execute(plan, run):
                       step=i, detail={'step': step, 'reads': reads})
             if obs == ACCEPT:
                 run.probe('honest_accept_' + step['lock'])
-        elif obs == ACCEPT and not atk and not step.get('suffix') and not step.get('tx_change'):
+        elif obs == ACCEPT and not atk and not step.get('suffix') and not step.get('tx_change') \
+                and not t_ambiguous:
             # anything accepted without transport tampering must be an honest chain
             # whose leases all contain t (F3 is the recorded exception, via `lease`)
             inwin = all(c['begin'] <= t < c['end'] for c in step['chain'])
